@@ -571,6 +571,16 @@ Definition default_terminal_state (vid : id) (st : VState) (s : Sim) : res VStat
   | OutOfService => Ok OutOfService
   end.
 
+(* ChargingStation._perform_update: a vehicle that is already full (reached right after a default transition) adds nothing *)
+Definition charge_unless_full (s : Sim) (vid sid cid : id) : res Sim :=
+  match find vid (vehicles s) with
+  | Some v => match e_mech env (v_mech v) with
+              | Some m => if mech_is_full m v then Ok s else charge s vid sid cid
+              | None => charge s vid sid cid
+              end
+  | None => charge s vid sid cid
+  end.
+
 Definition is_out_of_service (st : VState) : bool := match st with OutOfService => true | _ => false end.
 
 Definition perform_update (vid : id) (st : VState) (s : Sim) : res Sim :=
@@ -586,7 +596,7 @@ Definition perform_update (vid : id) (st : VState) (s : Sim) : res Sim :=
           end
       end
   | OutOfService | ReserveBase _ => Ok s
-  | ChargingStation sid cid => charge s vid sid cid
+  | ChargingStation sid cid => charge_unless_full s vid sid cid
   | ChargingBase bid cid =>
       match (match find bid (bases s) with Some b => b_station b | None => None end) with
       | None => Err
